@@ -215,10 +215,4 @@ Example C08_dealer_on_time_nonvacuous :
   let cf := mkCfg 3 1 1 in
   dealer_on_time cf 0 [IB 2 (MComplaint (CIdx 0)); IP 0 (MShare (SVal 11)); IB 0 (MVec (VOk [5; 3]));
                        ITimeout; IB 0 (MAnswer (AVal 2 14)); ITimeout].
-Proof.
-  cbn zeta. unfold dealer_on_time.
-  split; [|split; [|split]]; intros L1 ? ? ? E || intros L1 ? ? E;
-    repeat (destruct L1 as [|? L1]; cbn in E; [inversion E; subst; clear E|inversion E; subst; clear E]);
-    try (exfalso; match goal with H : [] = _ ++ _ :: _ |- _ => destruct L1; discriminate H end);
-    try (vm_compute; repeat split; try lia; try discriminate; intro Hm; discriminate Hm).
-Qed.
+Proof. cbn zeta. apply dealer_on_time_check. vm_compute. reflexivity. Qed.
